@@ -74,6 +74,20 @@
 //! mark-healthy / fail input (Suspect, Alive, PingAck message, `suspect_node`)
 //! leaves the comparison, like a tainted replica of configuration A.
 //!
+//! The observer's wall clock. Every update of the multiset carries an `updated_at`
+//! value of its own (`Upd::wall`, 0..3, independent of member, health, incarnation
+//! and timestamp; ties included) in configurations A, C and D. The statement does
+//! not mention it, no check reads it; it is input the merge must not be swayed by.
+//!
+//! Configuration D, identities and Suspect messages. The twins are either all n0
+//! or each any member of the cluster (`Case::idents`): the same messages then reach
+//! different members, among them the member the messages are about. A manager's
+//! start-up node state about itself is the first update it has received; the others
+//! receive it as an `own` update of the multiset. Suspect messages (about any
+//! member, the receiver included, which makes it refute) no longer take a twin out
+//! of the comparison; what is judged between such twins, and between twins of
+//! different identity, is stated at `compare_views`.
+//!
 //! Who "announces" an incarnation (clause 3). In the API an incarnation of
 //! member m originates from m in exactly three ways: its own node state
 //! (`update_local(m, Healthy, inc)` executed on m), an `Alive{m, inc}` message
@@ -121,6 +135,11 @@ pub struct Upd {
     pub ts: u8,
     /// written by member `m` itself (a self-announcement of `inc`)
     pub own: bool,
+    /// the observer's wall clock carried by the node state (`updated_at`); an independent field of the
+    /// update, from a tiny range. The statement speaks of health and incarnation only: two updates that
+    /// differ in nothing but `wall` are the same update for the oracle, and no check reads the field.
+    #[serde(default)]
+    pub wall: u8,
 }
 
 #[derive(Serialize, Deserialize, Clone, Debug, PartialEq)]
@@ -242,6 +261,22 @@ pub struct Case {
     /// (0 oldest first, 1 newest first, 2 alternating ends)
     #[serde(default)]
     pub flush: u8,
+    /// configuration D: the identity of twin i is member `(idents >> 2*i) & 3` (modulo `members`). 0 (and
+    /// every replay file written before the field existed): all twins are n0.
+    #[serde(default)]
+    pub idents: u8,
+}
+
+fn twin_ident(case: &Case, i: usize, members: usize) -> usize {
+    ((case.idents >> (2 * (i % 4))) & 3) as usize % members
+}
+/// configuration D: column of `pre_peers` (row 0) that says whether a twin of identity `id` registers member j up front
+fn pre_col(id: usize, j: usize) -> usize {
+    if j == 0 {
+        id
+    } else {
+        j
+    }
 }
 
 fn all_pre_registered() -> u16 {
@@ -288,6 +323,10 @@ fn hname(c: u8) -> &'static str {
         3 => "Unknown",
         _ => "?",
     }
+}
+/// the multiset with the wall clock (`updated_at`) of every update, for the event log
+fn show_multiset(vals: &[Val], walls: &[u64]) -> String {
+    vals.iter().enumerate().map(|(i, v)| format!("#{i}={}@wall{}", show(&[*v]), walls.get(i).copied().unwrap_or(0))).collect::<Vec<_>>().join(" ")
 }
 fn show(v: &[Val]) -> String {
     let parts: Vec<String> = v.iter().map(|(m, h, i, t)| format!("n{m}:{}/inc{i}/ts{t}", hname(*h))).collect();
@@ -439,6 +478,31 @@ fn effective_vals(case: &Case, members: usize) -> (Vec<Val>, Vec<u64>) {
     (vals, announced_ms)
 }
 
+/// `updated_at` of each update of the multiset (same indices as `effective_vals`)
+fn walls_of(case: &Case) -> Vec<u64> {
+    case.updates.iter().map(|u| u64::from(u.wall)).collect()
+}
+
+/// probe: the multiset contains an exact (member, incarnation, timestamp) tie of different health in
+/// which the LESS severe report carries the LATER wall clock (a "latest observation wins" rule and the
+/// severity rule would disagree on it)
+fn probe_wall_against_severity(ctx: &RunCtx, vals: &[Val], walls: &[u64]) {
+    let rank = |h: u8| match h {
+        3 => 0u8,
+        0 => 1,
+        1 => 2,
+        _ => 3,
+    };
+    for i in 0..vals.len() {
+        for j in 0..vals.len() {
+            if vals[i].0 == vals[j].0 && vals[i].2 == vals[j].2 && vals[i].3 == vals[j].3 && rank(vals[i].1) < rank(vals[j].1) && walls[i] > walls[j] {
+                ctx.probe("tie_wall_clock_against_severity");
+                return;
+            }
+        }
+    }
+}
+
 // ---------------------------------------------------------------------------
 // configuration A
 // ---------------------------------------------------------------------------
@@ -461,6 +525,8 @@ fn run_a(case: &Case, ctx: &Arc<RunCtx>) -> RunOut {
     let nrep = case.replicas.clamp(1, 8) as usize;
 
     let (vals, announced_ms) = effective_vals(case, members);
+    let walls = walls_of(case);
+    probe_wall_against_severity(ctx, &vals, &walls);
     // announcements so far: multiset + Refute/Announce steps executed so far
     let mut announced = announced_ms.clone();
 
@@ -479,7 +545,7 @@ fn run_a(case: &Case, ctx: &Arc<RunCtx>) -> RunOut {
     ctx.event(&format!(
         "A mode={:?} members={members} replicas={nrep} multiset={}",
         case.mode,
-        vals.iter().enumerate().map(|(i, v)| format!("#{i}={}", show(&[*v]))).collect::<Vec<_>>().join(" ")
+        show_multiset(&vals, &walls)
     ));
 
     let mut reps: Vec<Rep> = (0..nrep)
@@ -515,7 +581,7 @@ fn run_a(case: &Case, ctx: &Arc<RunCtx>) -> RunOut {
                     .iter()
                     .map(|i| {
                         let (m, h, inc, ts) = vals[*i];
-                        GossipNodeState::with_wall_time(name(m as usize), health(h), ts, inc, 0)
+                        GossipNodeState::with_wall_time(name(m as usize), health(h), ts, inc, walls[*i])
                     })
                     .collect();
                 // probes
@@ -854,6 +920,13 @@ struct Side<'a> {
     /// re-uses the recorded one, or 0 for a member not recorded at all).
     stamped: &'a BTreeSet<u8>,
     hist: String,
+    /// configuration D: the update values this node has received (its own initial node state included)
+    recv: Option<&'a BTreeSet<Val>>,
+    /// configuration D: one of the two nodes received Suspect messages (local suspect / self-refutation /
+    /// later suspicion expiry = fail events, all of which stamp entries with the node's own clock), or the
+    /// two nodes are different members (each has stamped the placeholders of the members it registered,
+    /// the other one among them, with its own clock): only entries that are received update values are judged
+    local_in: bool,
 }
 
 /// Clause (1) between two real managers:
@@ -866,11 +939,42 @@ struct Side<'a> {
 /// side. Judged: the incarnation of every member both hold; the health of every
 /// member neither side has stamped with its own clock (see `Side::stamped`); a
 /// member that one side holds un-stamped must be held by the other side too.
+///
+/// Nodes that also had local suspect events (configuration D, `Side::local_in`: Suspect messages, and
+/// the fail events their expiry produces), and nodes that are different members. Every local event and every stamp rewrites an entry with the
+/// same or a higher incarnation and a time above everything the node has merged so far, so an entry
+/// only ever moves upwards in the order (incarnation, timestamp, severity) in which `merge` keeps the
+/// greatest value: entry = max(received updates about m, local stamps on m). If the entry a node holds
+/// for m IS one of the received update values, it is the greatest received update about m - a function
+/// of the received set alone. Two such nodes with the same received set must therefore agree on m
+/// whatever local events either of them had; this is all that is judged when one side had local events.
 fn compare_views(cfg: &str, key: &str, a: &Side, b: &Side) -> Option<Violation> {
     let members: BTreeSet<u8> = a.view.iter().chain(b.view.iter()).map(|v| v.0).collect();
+    let local = a.local_in || b.local_in;
+    let verbatim = |s: &Side, e: &Val| s.recv.is_some_and(|r| r.contains(e));
     for m in members {
         let x = a.view.iter().find(|v| v.0 == m);
         let y = b.view.iter().find(|v| v.0 == m);
+        if local {
+            if let (Some(x), Some(y)) = (x, y) {
+                if verbatim(a, x) && verbatim(b, y) && (x.1 != y.1 || x.2 != y.2) {
+                    let what = if x.2 != y.2 { "incarnation" } else { "health" };
+                    return Some(Violation {
+                        class: format!("c1-convergence-{what}-differs:{cfg}"),
+                        detail: format!(
+                            "same set of updates received {key}, different views of member n{m}, both entries being received update values: {} holds {} (history: {}); {} holds {} (history: {})",
+                            a.who,
+                            show(a.view),
+                            a.hist,
+                            b.who,
+                            show(b.view),
+                            b.hist
+                        ),
+                    });
+                }
+            }
+            continue;
+        }
         let what = match (x, y) {
             (Some(x), Some(y)) => {
                 if x.2 != y.2 {
@@ -1058,8 +1162,8 @@ fn run_b(case: &Case, ctx: &Arc<RunCtx>) -> RunOut {
             ctx.probe("mgr_same_set_compared_after_reordering");
         }
         let view = view_of(mgrs[r].membership_view().iter());
-        let a = Side { who: format!("manager n{r}"), view: &view, stamped: &p.stamped_p, hist: p.hist_p.join("; ") };
-        let b = Side { who: format!("the shadow of n{r} (same inputs, own order)"), view: &p.last_s, stamped: &p.stamped_s, hist: p.hist_s.join("; ") };
+        let a = Side { who: format!("manager n{r}"), view: &view, stamped: &p.stamped_p, hist: p.hist_p.join("; "), recv: None, local_in: false };
+        let b = Side { who: format!("the shadow of n{r} (same inputs, own order)"), view: &p.last_s, stamped: &p.stamped_s, hist: p.hist_s.join("; "), recv: None, local_in: false };
         compare_views("B", "(every message and registration manager and shadow received is in both histories)", &a, &b)
     };
 
@@ -1374,6 +1478,8 @@ struct CWorld {
     ctx: Arc<RunCtx>,
     sh: Mutex<CShared>,
     vals: Vec<Val>,
+    /// `updated_at` of the updates (same indices as `vals`)
+    walls: Vec<u64>,
     members: usize,
     interval_ms: u64,
     /// more than one thread is calling (only picks the suffix of the violation class)
@@ -1405,9 +1511,15 @@ impl CWorld {
         let (line, subject, call, op): (String, Option<u8>, CCall, &'static str) = match step {
             Step::MsgSync { from, items, time, .. } => {
                 let f = peer(*from);
-                let bv: Vec<Val> = items.iter().map(|i| *i as usize).filter(|i| *i < self.vals.len()).map(|i| self.vals[i]).collect();
-                let states: Vec<GossipNodeState> =
-                    bv.iter().map(|(m, h, inc, ts)| GossipNodeState::with_wall_time(name(*m as usize), health(*h), *ts, *inc, 0)).collect();
+                let idx: Vec<usize> = items.iter().map(|i| *i as usize).filter(|i| *i < self.vals.len()).collect();
+                let bv: Vec<Val> = idx.iter().map(|i| self.vals[*i]).collect();
+                let states: Vec<GossipNodeState> = idx
+                    .iter()
+                    .map(|i| {
+                        let (m, h, inc, ts) = self.vals[*i];
+                        GossipNodeState::with_wall_time(name(m as usize), health(h), ts, inc, self.walls.get(*i).copied().unwrap_or(0))
+                    })
+                    .collect();
                 if states.len() > 1 {
                     self.ctx.fault_fired("batched");
                 }
@@ -1639,7 +1751,7 @@ fn run_c(case: &Case, ctx: &Arc<RunCtx>) -> RunOut {
         "C members={members} threads={nthreads} suspicion_timeout_ms={} pre_registered={:#06x} multiset={}",
         case.susp_ms.max(1),
         case.pre_peers,
-        vals.iter().enumerate().map(|(i, v)| format!("#{i}={}", show(&[*v]))).collect::<Vec<_>>().join(" ")
+        show_multiset(&vals, &walls_of(case))
     ));
     let world = Arc::new(CWorld {
         mgr,
@@ -1647,6 +1759,7 @@ fn run_c(case: &Case, ctx: &Arc<RunCtx>) -> RunOut {
         ctx: ctx.clone(),
         sh: Mutex::new(CShared { announced: announced_ms, inflight: vec![None; nthreads.max(1)], registered, ..CShared::default() }),
         vals,
+        walls: walls_of(case),
         members,
         interval_ms,
         concurrent: AtomicBool::new(false),
@@ -1747,6 +1860,14 @@ struct Twin {
     /// senders in the order of their first Sync (probe only)
     order: Vec<(u8, u8)>,
     last_id: u64,
+    /// the member this twin is
+    id: usize,
+    /// received Suspect messages (see `compare_views`)
+    local_in: bool,
+    /// Suspect messages that named this twin itself (each one is refuted: private counter + 1, Alive broadcast)
+    self_refutes: u64,
+    /// update values received inside Sync messages so far (with repetitions)
+    got: u64,
 }
 
 /// what an untainted twin held when it first had a given (received set, registered set)
@@ -1757,6 +1878,9 @@ struct SeenD {
     step: usize,
     hist: String,
     order: Vec<(u8, u8)>,
+    recv: BTreeSet<Val>,
+    local_in: bool,
+    id: usize,
 }
 
 /// Configuration D (`Mode::Twins`): 2-4 real `GossipMembershipManager`s with the SAME
@@ -1805,24 +1929,38 @@ fn run_d(case: &Case, ctx: &Arc<RunCtx>) -> RunOut {
     };
     let interval_ms = cfg.gossip_interval_ms;
     let (vals, announced_ms) = effective_vals(case, members);
+    let walls = walls_of(case);
+    probe_wall_against_severity(ctx, &vals, &walls);
     let mut twins: Vec<Twin> = (0..ntw)
-        .map(|_| {
+        .map(|i| {
+            let id = twin_ident(case, i, members);
             let net = new_net();
-            let mgr = GossipMembershipManager::new(name(0), cfg.clone(), SimTransport::new(&name(0), &all, &net));
+            let mgr = GossipMembershipManager::new(name(id), cfg.clone(), SimTransport::new(&name(id), &all, &net));
+            // The node state a manager writes about itself when it is created (`update_local(local,
+            // Healthy, 0)` at its first clock tick) is that member's own announcement of incarnation 0.
+            // It is the first membership update the node "receives"; a node of another identity has
+            // received the same set only once it was handed the same value (an `own` update of the
+            // multiset with incarnation 0 and that timestamp).
+            let recv: BTreeSet<Val> = view_of(mgr.membership_view().iter()).into_iter().filter(|v| v.0 as usize == id).collect();
             let mut registered = BTreeSet::new();
-            for (j, p) in all.iter().enumerate().skip(1) {
-                if pre_registered(case, 0, j) {
+            registered.insert(id as u8);
+            for (j, p) in all.iter().enumerate() {
+                if j != id && pre_registered(case, 0, pre_col(id, j)) {
                     mgr.add_peer(p.clone());
                     registered.insert(j as u8);
                 }
             }
             Twin {
+                id,
+                local_in: false,
+                self_refutes: 0,
+                got: 0,
+                recv,
                 mgr,
                 net,
                 tainted: false,
                 stamped: BTreeSet::new(),
                 registered,
-                recv: BTreeSet::new(),
                 mono: Mono::default(),
                 last_view: Vec::new(),
                 hist: Vec::new(),
@@ -1834,13 +1972,24 @@ fn run_d(case: &Case, ctx: &Arc<RunCtx>) -> RunOut {
         })
         .collect();
     ctx.event(&format!(
-        "D members={members} twins={ntw} suspicion_timeout_ms={} pre_registered={:#06x} multiset={}",
+        "D members={members} twins={ntw} identities={:?} suspicion_timeout_ms={} pre_registered={:#06x} multiset={}",
+        twins.iter().map(|t| t.id).collect::<Vec<_>>(),
         case.susp_ms.max(1),
         case.pre_peers,
-        vals.iter().enumerate().map(|(i, v)| format!("#{i}={}", show(&[*v]))).collect::<Vec<_>>().join(" ")
+        show_multiset(&vals, &walls_of(case))
     ));
-    // a member other than n0 (senders / reporters of messages)
-    let peer = |x: u8| 1 + (x as usize % (members - 1));
+    // a member other than the receiving twin itself (senders / reporters of messages)
+    let peer_of = |id: usize, x: u8| {
+        let k = x as usize % (members - 1);
+        if k >= id {
+            k + 1
+        } else {
+            k
+        }
+    };
+    if twins.iter().any(|t| t.id != twins[0].id) {
+        ctx.probe("twin_identities_differ");
+    }
     let mut seen: BTreeMap<(Vec<Val>, Vec<u8>), SeenD> = BTreeMap::new();
     let mut comparisons = 0u64;
 
@@ -1863,6 +2012,8 @@ fn run_d(case: &Case, ctx: &Arc<RunCtx>) -> RunOut {
             _ => continue, // steps of the other configurations: nothing to act on
         };
         let tw = &mut twins[r];
+        let twid = tw.id;
+        let peer = |x: u8| peer_of(twid, x);
         let op: &'static str;
         let line: String;
         {
@@ -1870,9 +2021,19 @@ fn run_d(case: &Case, ctx: &Arc<RunCtx>) -> RunOut {
             match step {
                 Step::MsgSync { from, items, time, .. } => {
                     let f = peer(*from);
-                    let bv: Vec<Val> = items.iter().map(|i| *i as usize).filter(|i| *i < vals.len()).map(|i| vals[i]).collect();
-                    let states: Vec<GossipNodeState> =
-                        bv.iter().map(|(m, h, inc, ts)| GossipNodeState::with_wall_time(name(*m as usize), health(*h), *ts, *inc, 0)).collect();
+                    let idx: Vec<usize> = items.iter().map(|i| *i as usize).filter(|i| *i < vals.len()).collect();
+                    let bv: Vec<Val> = idx.iter().map(|i| vals[*i]).collect();
+                    let states: Vec<GossipNodeState> = idx
+                        .iter()
+                        .map(|i| {
+                            let (m, h, inc, ts) = vals[*i];
+                            GossipNodeState::with_wall_time(name(m as usize), health(h), ts, inc, walls[*i])
+                        })
+                        .collect();
+                    tw.got += bv.len() as u64;
+                    if tw.self_refutes > 0 && bv.iter().any(|v| v.0 as usize == tw.id && v.1 != 0 && v.2 < tw.self_refutes) {
+                        ctx.probe("twin_sync_reports_receiver_below_its_refuted_incarnation");
+                    }
                     if states.len() > 1 {
                         ctx.fault_fired("batched");
                     }
@@ -1910,7 +2071,14 @@ fn run_d(case: &Case, ctx: &Arc<RunCtx>) -> RunOut {
                 },
                 Step::MsgSuspect { from, m, inc, .. } => {
                     let (f, m) = (peer(*from), *m as usize % members);
-                    tw.tainted = true;
+                    // A Suspect message is a local suspect event (about another member) or makes the
+                    // receiver refute (about itself). The twin stays in the comparison of clause (1),
+                    // restricted to entries that are received update values (see `compare_views`).
+                    tw.local_in = true;
+                    if m == tw.id {
+                        tw.self_refutes += 1;
+                        ctx.probe("twin_suspect_names_receiver");
+                    }
                     line = format!("Suspect(n{m} inc{inc} by n{f})");
                     tw.mgr.handle_gossip(GossipMessage::Suspect { reporter: name(f), suspect: name(m), incarnation: u64::from(*inc) });
                     op = "suspect";
@@ -1925,7 +2093,7 @@ fn run_d(case: &Case, ctx: &Arc<RunCtx>) -> RunOut {
                 Step::MsgBidir { from, id, ack, .. } => {
                     let f = peer(*from);
                     let g = if *ack {
-                        GossipMessage::BidirectionalAck { origin: name(0), probe_id: u64::from(*id), responder: name(f) }
+                        GossipMessage::BidirectionalAck { origin: name(tw.id), probe_id: u64::from(*id), responder: name(f) }
                     } else {
                         GossipMessage::BidirectionalProbe { origin: name(f), probe_id: u64::from(*id), timestamp: 0 }
                     };
@@ -1935,7 +2103,7 @@ fn run_d(case: &Case, ctx: &Arc<RunCtx>) -> RunOut {
                 },
                 Step::SuspectNode { m, .. } => {
                     let m = *m as usize % members;
-                    if m == 0 {
+                    if m == tw.id {
                         continue; // a node does not suspect itself
                     }
                     tw.tainted = true;
@@ -1955,7 +2123,7 @@ fn run_d(case: &Case, ctx: &Arc<RunCtx>) -> RunOut {
                     if tw.mgr.node_state(&name(m)).is_none() {
                         // the placeholder will carry this twin's own time
                         tw.stamped.insert(m as u8);
-                    } else if m != 0 && !tw.registered.contains(&(m as u8)) {
+                    } else if m != tw.id && !tw.registered.contains(&(m as u8)) {
                         ctx.probe("twin_add_peer_of_known_member");
                     }
                     tw.registered.insert(m as u8);
@@ -1977,13 +2145,13 @@ fn run_d(case: &Case, ctx: &Arc<RunCtx>) -> RunOut {
             out.harness_error = Some(e);
             return out;
         }
-        // n0's own announcements, read off this twin's wire: Alive{n0, i}
+        // the twin's own announcements, read off its wire: Alive{itself, i}
         {
             let g = tw.net.lock().unwrap();
             for f in g.inflight.iter().filter(|f| f.id > tw.last_id) {
                 if let Message::Gossip(GossipMessage::Alive { node_id, incarnation }) = &f.msg {
-                    if *node_id == f.from && member_idx(node_id) == 0 {
-                        tw.announced[0] = tw.announced[0].max(*incarnation);
+                    if *node_id == f.from && member_idx(node_id) as usize == tw.id {
+                        tw.announced[tw.id] = tw.announced[tw.id].max(*incarnation);
                     }
                 }
             }
@@ -2013,10 +2181,23 @@ fn run_d(case: &Case, ctx: &Arc<RunCtx>) -> RunOut {
         let key = (tw.recv.iter().copied().collect::<Vec<Val>>(), tw.registered.iter().copied().collect::<Vec<u8>>());
         match seen.get(&key) {
             None => {
-                seen.insert(key, SeenD { view, stamped: tw.stamped.clone(), twin: r, step: sn, hist: tw.hist.join("; "), order: tw.order.clone() });
+                seen.insert(
+                    key,
+                    SeenD {
+                        view,
+                        stamped: tw.stamped.clone(),
+                        twin: r,
+                        step: sn,
+                        hist: tw.hist.join("; "),
+                        order: tw.order.clone(),
+                        recv: tw.recv.clone(),
+                        local_in: tw.local_in,
+                        id: tw.id,
+                    },
+                );
             },
             Some(s0) => {
-                if key.0.is_empty() {
+                if tw.got == 0 {
                     continue; // nothing received yet
                 }
                 comparisons += 1;
@@ -2025,9 +2206,29 @@ fn run_d(case: &Case, ctx: &Arc<RunCtx>) -> RunOut {
                     if s0.order != tw.order {
                         ctx.probe("twin_same_set_compared_after_other_order_or_grouping");
                     }
+                    if s0.id != tw.id {
+                        ctx.probe("twin_same_set_compared_between_identities");
+                    }
+                    if s0.local_in || tw.local_in {
+                        ctx.probe("twin_same_set_compared_after_suspect_message");
+                    }
                 }
-                let a = Side { who: format!("twin{} after step {}", s0.twin, s0.step), view: &s0.view, stamped: &s0.stamped, hist: s0.hist.clone() };
-                let b = Side { who: format!("twin{r} after step {sn}"), view: &view, stamped: &tw.stamped, hist: tw.hist.join("; ") };
+                let a = Side {
+                    who: format!("twin{} (member n{}) after step {}", s0.twin, s0.id, s0.step),
+                    view: &s0.view,
+                    stamped: &s0.stamped,
+                    hist: s0.hist.clone(),
+                    recv: Some(&s0.recv),
+                    local_in: s0.local_in || tw.local_in || s0.id != tw.id,
+                };
+                let b = Side {
+                    who: format!("twin{r} (member n{}) after step {sn}", tw.id),
+                    view: &view,
+                    stamped: &tw.stamped,
+                    hist: tw.hist.join("; "),
+                    recv: Some(&tw.recv),
+                    local_in: s0.local_in || tw.local_in || s0.id != tw.id,
+                };
                 let desc = format!("{} (registered: {:?})", show(&key.0), key.1);
                 if let Some(v) = compare_views("D", &desc, &a, &b) {
                     out.violation = Some(v);
@@ -2051,13 +2252,15 @@ fn gen_updates(rng: &mut Rng, members: u8, n_upd: usize) -> (Vec<Upd>, u64) {
     let inc_max = *rng.pick(&[0u64, 1, 1, 2, 2]);
     let ts_max = *rng.pick(&[0u64, 1, 2, 3, 3]);
     let tie_w = rng.range(1, 4);
+    // the observer's wall clock: constant, or an independent value from a tiny range (ties included)
+    let wall_max = *rng.pick(&[0u64, 1, 2, 3]);
     let mut updates: Vec<Upd> = Vec::new();
     for _ in 0..n_upd {
         if !updates.is_empty() && rng.chance(tie_w, 6) {
             // a tie: same member, incarnation and timestamp as an earlier update, other health
             let b = updates[rng.usize_below(updates.len())].clone();
             let bh = if b.own { 0 } else { b.h % 4 };
-            updates.push(Upd { m: b.m, h: (bh + 1 + rng.below(3) as u8) % 4, inc: b.inc, ts: b.ts, own: false });
+            updates.push(Upd { m: b.m, h: (bh + 1 + rng.below(3) as u8) % 4, inc: b.inc, ts: b.ts, own: false, wall: rng.below(wall_max + 1) as u8 });
         } else {
             let own = rng.chance(1, 3);
             updates.push(Upd {
@@ -2066,6 +2269,7 @@ fn gen_updates(rng: &mut Rng, members: u8, n_upd: usize) -> (Vec<Upd>, u64) {
                 inc: rng.below(inc_max + 1) as u8,
                 ts: rng.below(ts_max + 1) as u8,
                 own,
+                wall: rng.below(wall_max + 1) as u8,
             });
         }
     }
@@ -2160,6 +2364,7 @@ fn gen_a(rng: &mut Rng, mode: Mode) -> Case {
         schedule: Vec::new(),
         pre_peers: u16::MAX,
         flush: 0,
+        idents: 0,
     }
 }
 
@@ -2209,6 +2414,7 @@ fn gen_b(rng: &mut Rng) -> Case {
         schedule: Vec::new(),
         pre_peers: gen_pre_peers(rng),
         flush: rng.below(3) as u8,
+        idents: 0,
     }
 }
 
@@ -2264,6 +2470,7 @@ fn gen_c(rng: &mut Rng) -> Case {
         schedule,
         pre_peers: gen_pre_peers(rng),
         flush: 0,
+        idents: 0,
     }
 }
 
@@ -2271,12 +2478,47 @@ fn gen_c(rng: &mut Rng) -> Case {
 /// with repetitions, sometimes re-grouped into other messages (other senders, times, cuts); registrations
 /// and neutral local calls at arbitrary points; in some runs a few of the statement's local events
 fn gen_d(rng: &mut Rng) -> Case {
-    let members = rng.range(2, 4) as u8;
+    let mut members = rng.range(2, 4) as u8;
     let twins = rng.range(2, 4) as u8;
-    let n_upd = rng.range(1, 8) as usize;
-    let (updates, inc_max) = gen_updates(rng, members, n_upd);
+    // who the twins are: all n0 (several nodes in the same position), or any members (the same messages
+    // reach different members of the cluster, among them the member the messages are about)
+    let mixed = rng.chance(1, 2);
+    if mixed {
+        members = members.max(3);
+    }
+    let ids: Vec<u8> = (0..twins).map(|_| if mixed { rng.below(u64::from(members)) as u8 } else { 0 }).collect();
+    let idents = ids.iter().enumerate().fold(0u8, |a, (i, id)| a | (id << (2 * i)));
+    let mut n_upd = rng.range(1, 8) as usize;
+    let (mut updates, inc_max) = gen_updates(rng, members, n_upd);
+    if mixed {
+        // a slightly wider timestamp range (the placeholders of registered members sit at times 2..4)
+        for u in updates.iter_mut().filter(|u| !u.own) {
+            u.ts += rng.below(3) as u8;
+        }
+        // the node state every twin wrote about itself at start-up, as an update the others can receive
+        let mut distinct = ids.clone();
+        distinct.sort_unstable();
+        distinct.dedup();
+        for id in distinct {
+            if rng.chance(7, 8) {
+                updates.push(Upd { m: id, h: 0, inc: 0, ts: 1, own: true, wall: 0 });
+            }
+        }
+    }
+    let n_gen = n_upd;
+    n_upd = updates.len();
     let pre_peers = gen_pre_peers(rng);
-    let pool: Vec<Step> = (0..rng.range(1, 6)).map(|_| gen_sync(rng, 0, n_upd)).collect();
+    let mut pool: Vec<Step> = (0..rng.range(1, 6)).map(|_| gen_sync(rng, 0, n_upd)).collect();
+    // the start-up states travel in some message of the pool (mostly)
+    for k in n_gen..n_upd {
+        if rng.chance(7, 8) {
+            let at = rng.usize_below(pool.len());
+            if let Step::MsgSync { items, .. } = &mut pool[at] {
+                let pos = rng.usize_below(items.len() + 1);
+                items.insert(pos, k as u8);
+            }
+        }
+    }
     let m_of = |rng: &mut Rng| rng.below(u64::from(members)) as u8;
     let mut plans: Vec<Vec<Step>> = Vec::new();
     for r in 0..twins {
@@ -2308,8 +2550,9 @@ fn gen_d(rng: &mut Rng) -> Case {
             }
         }
         // registration of the members not registered up front (mostly), and of registered ones again (sometimes)
-        for m in 1..members {
-            let pre = (pre_peers >> m) & 1 == 1;
+        let my = ids[r as usize] as usize;
+        for m in (0..members).filter(|m| *m as usize != my) {
+            let pre = (pre_peers >> pre_col(my, m as usize)) & 1 == 1;
             if (!pre && rng.chance(3, 4)) || (pre && rng.chance(1, 8)) {
                 let pos = rng.usize_below(plan.len() + 1);
                 plan.insert(pos, Step::AddPeer { r, m });
@@ -2324,8 +2567,21 @@ fn gen_d(rng: &mut Rng) -> Case {
             };
             plan.insert(pos, s);
         }
+        if rng.chance(2, 5) {
+            // Suspect messages about any member, the receiver included (local suspect events / self-refutation;
+            // the twin stays in the comparison of clause (1), see `compare_views`)
+            for _ in 0..rng.range(1, 2) {
+                let pos = rng.usize_below(plan.len() + 1);
+                let m = if rng.chance(1, 2) { my as u8 } else { m_of(rng) };
+                plan.insert(pos, Step::MsgSuspect { r, from: rng.below(3) as u8, m, inc: rng.below(inc_max + 2) as u8 });
+            }
+            if rng.chance(1, 4) {
+                plan.push(Step::Advance { ms: *rng.pick(&[300u32, 600, 1200]) });
+                plan.push(Step::Round { r });
+            }
+        }
         if rng.chance(1, 5) {
-            // the statement's local events on this twin (it leaves the comparison of clause (1))
+            // the statement's other local events on this twin (it leaves the comparison of clause (1))
             for _ in 0..rng.range(1, 3) {
                 let pos = rng.usize_below(plan.len() + 1);
                 let s = match rng.below(6) {
@@ -2373,6 +2629,7 @@ fn gen_d(rng: &mut Rng) -> Case {
         schedule: Vec::new(),
         pre_peers,
         flush: 0,
+        idents,
     }
 }
 
@@ -2606,6 +2863,18 @@ impl Scenario for C17 {
             c.flush = 0;
             v.push(c);
         }
+        if case.idents != 0 {
+            let mut c = case.clone();
+            c.idents = 0;
+            v.push(c);
+            for i in 0..4 {
+                if (case.idents >> (2 * i)) & 3 != 0 {
+                    let mut c = case.clone();
+                    c.idents &= !(3 << (2 * i));
+                    v.push(c);
+                }
+            }
+        }
         // simpler values
         for (k, u) in case.updates.iter().enumerate() {
             if u.inc > 0 {
@@ -2616,6 +2885,11 @@ impl Scenario for C17 {
             if u.ts > 0 {
                 let mut c = case.clone();
                 c.updates[k].ts -= 1;
+                v.push(c);
+            }
+            if u.wall > 0 {
+                let mut c = case.clone();
+                c.updates[k].wall -= 1;
                 v.push(c);
             }
             if u.own {
@@ -2727,10 +3001,18 @@ impl Scenario for C17 {
             "twin_duplicate_sync",
             "twin_overtaken_sync_carries_new_update",
             "twin_incarnation_raised",
+            // the observer's wall clock as an independent field of the updates (A, C, D)
+            "tie_wall_clock_against_severity",
+            // D: twins that are different members; Suspect messages (about the receiver too) inside the comparison
+            "twin_identities_differ",
+            "twin_same_set_compared_between_identities",
+            "twin_suspect_names_receiver",
+            "twin_sync_reports_receiver_below_its_refuted_incarnation",
+            "twin_same_set_compared_after_suspect_message",
         ]
     }
     fn rule(&self) -> String {
-        "A case is (Merge/Local) a multiset of <=12 node-state updates over 2-4 members (incarnation 0..2, timestamp 0..3, all four health values, ties injected on purpose) plus, per replica (2-4 real LWWMembershipState), a delivery plan = permutation + duplicates + batching given as explicit merge steps, in Local mode interleaved with suspect/fail/refute/mark_healthy/update_local and replica-to-replica sync steps; or (Manager) 2-4 real GossipMembershipManager on SimTransport driven by 10-45 steps (gossip_round, suspect_node, clock advance, deliver/drop/duplicate of a picked in-flight message); or (Threads) ONE real GossipMembershipManager n0 with 1-3 peers that is handed the case's updates as the messages a node receives (Sync{sender, any sub-multiset of <=8 updates, sender_time}, Alive, Suspect, PingAck) and local events (suspect_node, gossip_round incl. suspicion expiry, clock advance): 0-4 calls sequentially, then 1-3 scheduled threads with 1-5 calls each into the same manager, switched at the manager's lock acquisitions according to the schedule in the case; clauses (2)/(3) judged on the view each thread reads after each completed call; or (Twins) 2-4 real GossipMembershipManager with the same identity n0 that are handed a pool of 1-6 whole Sync messages (any sender, sub-multiset of <=8 updates, sender_time 0..4), each twin in its own permutation with repetitions and sometimes its own re-grouping of the same updates into other messages, clause (1) judged between twins with the same received set of update values and the same registered members. In Manager, Threads and Twins the members registered up front are any subset (pre_peers), add_peer is a step at arbitrary points, and so are the remaining public local entry points (heal progress, bidirectional probes, flap records, callback registration, readers, shutdown); in Manager every manager has a shadow (same identity/configuration/registration) that receives the manager's inputs in an order of its own (ShadowDeliver/ShadowDup picks, flush order at the end) and clause (1) is judged between manager and shadow whenever the shadow has caught up and neither had a local suspect/refute/mark-healthy input. inner_enumerated_points counts same-received-set view comparisons (clause 1). Non-trivial: Merge = at least one such comparison was made; Local = at least one local event took effect; Manager = at least one delivered Sync changed the receiver's view; Threads = the observed view changed at least once and (with 2+ threads) two calls overlapped; Twins = at least one comparison. Distinct: hash of (mode, sequence of step kinds with batch size / changed-count / outcome class).".into()
+        "A case is (Merge/Local) a multiset of <=12 node-state updates over 2-4 members (incarnation 0..2, timestamp 0..3, all four health values, ties injected on purpose) plus, per replica (2-4 real LWWMembershipState), a delivery plan = permutation + duplicates + batching given as explicit merge steps, in Local mode interleaved with suspect/fail/refute/mark_healthy/update_local and replica-to-replica sync steps; or (Manager) 2-4 real GossipMembershipManager on SimTransport driven by 10-45 steps (gossip_round, suspect_node, clock advance, deliver/drop/duplicate of a picked in-flight message); or (Threads) ONE real GossipMembershipManager n0 with 1-3 peers that is handed the case's updates as the messages a node receives (Sync{sender, any sub-multiset of <=8 updates, sender_time}, Alive, Suspect, PingAck) and local events (suspect_node, gossip_round incl. suspicion expiry, clock advance): 0-4 calls sequentially, then 1-3 scheduled threads with 1-5 calls each into the same manager, switched at the manager's lock acquisitions according to the schedule in the case; clauses (2)/(3) judged on the view each thread reads after each completed call; or (Twins) 2-4 real GossipMembershipManager, all of identity n0 or each any member of the cluster (`idents`; its own start-up node state counts as the first update it received and travels to the others as an `own` update of the multiset), that are handed Suspect messages about any member (the receiver included: self-refutation) and a pool of 1-6 whole Sync messages (any sender, sub-multiset of <=8 updates, sender_time 0..4), each twin in its own permutation with repetitions and sometimes its own re-grouping of the same updates into other messages, clause (1) judged between twins with the same received set of update values and the same registered members. In Manager, Threads and Twins the members registered up front are any subset (pre_peers), add_peer is a step at arbitrary points, and so are the remaining public local entry points (heal progress, bidirectional probes, flap records, callback registration, readers, shutdown); in Manager every manager has a shadow (same identity/configuration/registration) that receives the manager's inputs in an order of its own (ShadowDeliver/ShadowDup picks, flush order at the end) and clause (1) is judged between manager and shadow whenever the shadow has caught up and neither had a local suspect/refute/mark-healthy input. inner_enumerated_points counts same-received-set view comparisons (clause 1). Non-trivial: Merge = at least one such comparison was made; Local = at least one local event took effect; Manager = at least one delivered Sync changed the receiver's view; Threads = the observed view changed at least once and (with 2+ threads) two calls overlapped; Twins = at least one comparison. Distinct: hash of (mode, sequence of step kinds with batch size / changed-count / outcome class).".into()
     }
     fn components(&self) -> Value {
         json!({
@@ -2761,6 +3043,8 @@ impl Scenario for C17 {
             "configuration C: overlapping calls of several threads into one manager are deliveries 'in any order and grouping, interleaved with local events' at the granularity of the manager's own critical sections (the manager is Sync, all entry points take &self, run() and the transport's receive tasks call it from different threads), so its violations are verdicts; a node's view is what membership_view()/lamport_time() return to a caller between two calls".into(),
             "configuration C: an Alive{m, inc} message counts as m's announcement of inc from the moment the delivering call starts".into(),
             "clause (1) between real managers (B: manager/shadow, D: twins): 'the same set of membership updates' = the same set of node-state values received inside Sync messages, by managers with the same identity, configuration and registered members and no other input; judged are the incarnation of every member, and the health of every member whose entry neither manager has stamped with its own clock (handle_sync stamps the sender Healthy at local time + 1, a late add_peer of an unknown member writes its placeholder at local time + 1: local observations whose time depends on the delivery order, not updates of the set)".into(),
+            "configuration D, twins that received Suspect messages or are different members: a Suspect message / its expiry / a registration placeholder / the sender stamp only ever rewrite an entry upwards in merge's order (same or higher incarnation, time above everything merged so far), so an entry that equals a received update value is the greatest received update about that member; clause (1) is judged on exactly those entries (both nodes hold a received value for the member) and on nothing else".into(),
+            "every update carries an observer wall clock (updated_at) drawn independently from 0..3; the statement speaks of health and incarnation only, so two updates that differ only in it are the same update for the oracle".into(),
             "handle_signed_gossip / with_signing / with_geometric are not driven (they wrap handle_gossip and target selection; signatures and geometry are outside C17's statement)".into(),
         ]
     }
